@@ -275,15 +275,10 @@ def judge_case(case, impl, top, ref_inner, ref_outer, top_outer=None):
     if ref_inner[0] == "err" and ref_inner[1] not in ("InconsistentEvidence",):
         return "machinery", ["oracle: %s" % ref_inner[1]]
     exp_top = top
-    if kind == "sq2_outer" and top_outer is not None and top_outer[0] == "err" and top_outer[1] != "InconsistentEvidence":
-        # the outer program WITHOUT any wrapper already fails at top level (grounding its evidence): not about subquery
-        if impl[0] == "err" and impl[1] == top_outer[1]:
-            return "inherited", ["outer program itself raises %s at top level" % top_outer[1]]
-    if kind == "sq2_outer" and ref_outer is not None and ref_outer[0] == "err" and ref_outer[1] == "InconsistentEvidence":
-        # the OUTER evidence is impossible: the outer inference must raise, whatever the nested calls return
-        if impl[0] == "err" and impl[1] == "InconsistentEvidence":
-            return "agree", []
-        return "violation", ["outer evidence is inconsistent (semantics) but the wrapper program did not raise InconsistentEvidence: %r" % (impl,)]
+    if kind == "sq2_outer" and top_outer is not None and top_outer[0] == "err":
+        # the outer program WITHOUT any wrapper already raises at top level (inconsistent outer evidence, or a failure while
+        # grounding its evidence): the wrapper program must raise the same, whatever the nested calls return
+        exp_top = top_outer
     d_top = compare(prog, impl, exp_top, "top-level ProbLog")
     d_ref = compare(prog, impl, expected_for(kind, ref_inner, ref_outer), "the semantics")
     if not d_top and not d_ref:
